@@ -42,10 +42,14 @@ from collections import deque
 
 NAMES = "abcd"
 LINKED, EVALUATING, ASYNC, EVALUATED = 0, 1, 2, 3
-# where the emulated engine assertions live (only used by the defect emulations)
-LOC_REJECT = "engine/src/module/source.rs:2205"
-LOC_GAA_STATUS = "engine/src/module/source.rs:1565"
-LOC_GAA_PENDING = "engine/src/module/source.rs:1568"
+# file of the emulated engine assertions (only used by the defect emulations); line numbers are stripped from observed panics
+# (`canon`) so that unrelated edits of the engine file do not change outcomes
+LOC_REJECT = "engine/src/module/source.rs"
+LOC_GAA_STATUS = "engine/src/module/source.rs"
+LOC_GAA_PENDING = "engine/src/module/source.rs"
+LOC_AMEF_1A = "engine/src/module/source.rs"
+LOC_AMEF_12A = "engine/src/module/source.rs"
+NOTE = [None]     # authoring aid: which emulated engine assertion fired last
 
 
 class Abrupt(Exception):
@@ -281,10 +285,19 @@ class World:
                     break
         return index
 
+    def engine_assert(self, cond, loc, what):
+        """a specification assertion that the engine checks with `debug_assert!(error.is_some())`: under a defect emulation its
+        failure is the engine's panic, otherwise it is a failure of the model"""
+        if not cond:
+            if self.bugs:
+                NOTE[0] = what
+                raise EnginePanic(loc + " assertion failed: error.is_some()")
+            raise ModelAssert(what)
+
     # ---------------------------------------------------------------- async completion
     def async_fulfilled(self, m):
         if self.status[m] == EVALUATED:
-            _ck(self.error[m] is not None, "AsyncModuleExecutionFulfilled 1.a")
+            self.engine_assert(self.error[m] is not None, LOC_AMEF_1A, "AsyncModuleExecutionFulfilled 1.a")
             return
         _ck(self.status[m] == ASYNC and isinstance(self.order[m], int) and self.error[m] is None, "AMEF 2-4")
         self.order[m] = "done"
@@ -298,7 +311,7 @@ class World:
             exec_list.sort(key=lambda x: self.order[x])
         for x in exec_list:
             if self.status[x] == EVALUATED:
-                _ck(self.error[x] is not None, "AMEF 12.a.i")
+                self.engine_assert(self.error[x] is not None, LOC_AMEF_12A, "AMEF 12.a.i")
             elif self.tla[x]:
                 self.execute_async(x)
             else:
@@ -337,7 +350,7 @@ class World:
 
     def async_rejected(self, m, err):
         if self.status[m] == EVALUATED:
-            _ck(self.error[m] is not None, "AsyncModuleExecutionRejected 1.a")
+            self.engine_assert(self.error[m] is not None, LOC_REJECT, "AsyncModuleExecutionRejected 1.a")
             return
         _ck(self.status[m] == ASYNC and isinstance(self.order[m], int) and self.error[m] is None, "AMER 2-4")
         self.error[m] = err
@@ -374,6 +387,16 @@ class World:
             origin = ord(nm[-1]) - 97
             items.append("%s=%s" % (nm, self.val[origin]))
         return "%s{%s}" % (NAMES[m], ",".join(items))
+
+
+_PANIC_LOC = __import__("re").compile(r"^(RustPanic \S+?):\d+ ")
+
+
+def canon(outcome):
+    """canonical form of an outcome string reported by vc17: panic locations without the line number"""
+    if outcome.startswith("RustPanic"):
+        return _PANIC_LOC.sub(r"\1 ", outcome)
+    return outcome
 
 
 def state_str(p):
